@@ -1,12 +1,14 @@
 use crate::ctx::Ctx;
 pub mod c04;
+pub mod c08;
 pub mod c16;
 
-pub const ALL: &[&str] = &["C04", "C16"];
+pub const ALL: &[&str] = &["C04", "C08", "C16"];
 
 pub fn run(prop: &str, ctx: &mut Ctx) -> bool {
     match prop {
         "C04" => c04::run(ctx),
+        "C08" => c08::run(ctx),
         "C16" => c16::run(ctx),
         _ => return false,
     }
